@@ -101,19 +101,19 @@ PROPS = {
         streams=[S("hashtable", n_quick=625), S("hashset", n_quick=375)],
         relevant=rel_content,
         level_text=T("the bucket-array model with cached hashes refines an ideal map for every hash function (parameter), every capacity/threshold function, including the NULL key; resize preserves the abstraction."),
-        level_note=LN + "The library's own hash functions (djb2/Murmur) are compared against the spec only (L1), their arithmetic is not modelled.",
+        level_note=LN + "The library's own hash functions (djb2/Murmur) are transcribed in the Lean driver, so bucket layouts are compared at L3 as well; the theorems quantify over an arbitrary hash function and use no property of that arithmetic.",
     ),
     "C03": dict(
         streams=[S("treetable", n_quick=625), S("treeset", n_quick=375)],
         relevant=rel_content,
         level_text=T("the coloured-tree model (CLRS case analysis as structural recursion, same shapes and colours as the C heap) refines an ordered map for every total-order comparator."),
-        level_note=LN + "Parent/sentinel pointers are abstracted by the inductive tree; they are walked on the real heap by the shim.",
+        level_note=LN + "The refinement theorems are about the inductive coloured tree. A second, pointer-level model (Model/PTree.lean: a heap of nodes with parent/left/right/color fields; Properties/C03PTree.lean) proves that rotations, transplant, the min/max/successor/predecessor walks and the insert fix-up loop commute with the inductive tree including all parent pointers; cc_treetable_add and remove_node as wholes are executed by the driver on both models and compared with the C heap at L3 (node ids, parent ids), not proved to commute. The shim additionally walks parent pointers, colours and black heights on the real heap.",
     ),
     "C04": dict(
         streams=[S("list", n_quick=625), S("slist", n_quick=625)],
         relevant=rel_content,
-        level_text=T("node-sequence-plus-bookkeeping models of both lists refine an ideal sequence incl. add_all/splice on two lists; backward traversal is the mirror of the forward one."),
-        level_note=LN + "Raw next/prev pointers are abstracted; the shim walks them on the real heap after every operation (WALK tokens).",
+        level_text=T("node-sequence-plus-bookkeeping models of both lists refine an ideal sequence incl. add_all/splice on two lists; pointer-level models (heaps of nodes with raw next/prev: Model/PList.lean, Model/PSList.lean) refine those, and backward traversal is proved to be the mirror of the forward one as a theorem about the links (C04PList.mirror)."),
+        level_note=LN + "Raw next/prev links are model state for every operation (incl. filter_mut, sorts, builders, the doubly linked list's zip mutators) and compared node by node with the C heap at L3 (id:data:prev:next); only the singly linked list's iterator and zip mutators are still sequence-level. The shim additionally walks the links on the real heap after every operation (WALK tokens).",
     ),
     "C05": dict(
         streams=[S("deque", n_quick=750)],
@@ -124,20 +124,20 @@ PROPS = {
     "C06": dict(
         streams=[S(c, focus="all", n_quick=150, small=False, valgrind=True, coverage=True, plain_pass=True) for c in ALL],
         relevant=rel_c06,
-        level_text=T("for the buffer containers no reachable state makes a checked access fault (every slot index below the allocated slot count, no modulo by zero); for every container the ledger theorems show destroy releases every owned block exactly once.") + " Partial by nature: use-after-free, uninitialised reads and pointer-level double frees in linked structures are runtime behaviour the models cannot exhibit; they are observed on sampled histories under ASan/UBSan (and valgrind in the thorough tier) with two allocation ledgers.",
+        level_text=T("for the buffer containers no reachable state makes a checked access fault (every slot index below the allocated slot count, no modulo by zero); for every container the ledger theorems show destroy releases every owned block exactly once.") + " One theorem is _partial on the known finding X5 (C06TST.remove_frees_entry_partial, key != empty). Partial by nature: use-after-free, uninitialised reads and pointer-level double frees in linked structures are runtime behaviour the models cannot exhibit; they are observed on sampled histories under ASan/UBSan (and valgrind in the thorough tier) with two allocation ledgers.",
         level_note=LN + "Memory errors at the C level are observed, not proved.",
     ),
     "C07": dict(
         streams=[S(c, focus="iter", n_quick=300) for c in ["array", "array_sized", "deque", "list", "slist", "hashtable", "hashset", "treetable", "treeset", "tsttable", "queue", "stack"]],
         relevant=rel_content,
         level_text=T("iterator cursors are part of the models; theorems relate next/remove/add/replace to an ideal cursor over the abstract sequence (complete, in order, one-step mutation affects exactly the yielded position)."),
-        level_note=LN + "Programs respect the documented contract (mutators only after a successful next, one structural change per yield).",
+        level_note=LN + "The program theorems quantify over all iterator programs, not only contract-respecting ones, and the generators emit repeated mutators after one next; the only exclusions are the contract violations that dereference NULL (list/slist iter_add with no current element, tree iter_remove before the first next). Nine theorems are _partial: six in C07Deque on the known finding D3 (iter_add/zip_iter_add at front-half positions) and three in C07TST on X5 (empty key); their witnesses are replayed on every run.",
     ),
     "C08": dict(
         streams=[S(c, focus="fault", n_quick=100, small=False, faults=True, coverage=True) for c in ["array", "array_sized", "pqueue", "deque", "list", "slist", "hashtable", "hashset", "treetable", "treeset", "tsttable", "queue", "stack", "rbuf", "dpool"]],
         relevant=rel_c08,
-        level_text=T("for every refusal schedule a refused allocation yields the allocation-error status, leaves the abstraction unchanged and the ledger consistent (atomicity conjunct of each step theorem).") + " The run enumerates, for every operation of sampled histories, every allocator call of that operation as the one that is refused.",
-        level_note=LN,
+        level_text=T("for every refusal schedule a refused allocation yields the allocation-error status, leaves the abstraction unchanged and the ledger consistent (atomicity conjunct of each step theorem).") + " The run enumerates, for every operation of sampled histories, the allocator calls of that operation as the one that is refused (at most 40 refusal points per history in the quick tier, 300 in thorough, sampled at random when there are more).",
+        level_note=LN + "One theorem is _partial on the known finding D3 (C08Deque.continue_refines_partial).",
     ),
     "C09": dict(
         streams=[S("stack", n_quick=750), S("queue", n_quick=750)],
@@ -172,8 +172,8 @@ PROPS = {
     "C14": dict(
         streams=[S(c, focus="all", n_quick=125, small=False, alloc_modes=True, coverage=True, plain_pass=True) for c in SEQ + MAPS + ["pqueue", "rbuf"]],
         relevant=rel_c14,
-        level_text=T("every container state records the allocator triple it was built with (configured or C library), every allocation and release of every model operation goes through that triple (two separately counted ledgers), derived containers and wrapped inner containers inherit it exactly where the C code copies the three function pointers; outputs and states depend on the ledger only through the refusal schedule.") + " Because this is a property of which function the C text calls, the weight is on the tie: every operation runs with two ledgers armed (configured / libc via linker --wrap) and every history is re-run on a static and on a dynamic pool of the library itself.",
-        level_note=LN,
+        level_text=T("every container state records the allocator triple it was built with (configured or C library), every allocation and release of every model operation goes through that triple (two separately counted ledgers), derived containers and wrapped inner containers inherit it exactly where the C code copies the three function pointers; outputs and states depend on the ledger only through the refusal schedule.") + " Because this is a property of which function the C text calls, the weight is on the tie: every operation runs with two ledgers armed (configured / libc via linker --wrap) and half of the random histories are re-run on a static and on a dynamic pool of the library itself.",
+        level_note=LN + "The model's Triple tells the configured allocator from the C library's but not two different configured allocators (the harness does: one ledger per triple, cross-triple frees reported). 'Sufficiently large pool' is proved in two halves (C14Pools pool side, allocator_independent container side) composed informally. Known finding printed by this check: splice between lists on different allocators (hypothesis Compat in the splice theorems).",
     ),
     "C15": dict(
         streams=[S(c, focus="derived", n_quick=375) for c in ["array", "array_sized", "deque", "list", "slist", "hashtable", "stack"]],
@@ -185,7 +185,7 @@ PROPS = {
         streams=[S(c, focus="reject", n_quick=375) for c in ["array", "array_sized", "deque", "list", "slist", "treetable", "hashtable", "tsttable", "pqueue", "rbuf", "stack", "queue"]],
         relevant=rel_c16,
         level_text=T("per operation: an error status other than ALLOC leaves the whole physical state unchanged, and every argument outside the documented range is rejected, for all arguments in the size_t domain.") + " The argument guards of 31 indexed functions are additionally translated from the C text into Lean on every run (tools/gen_guards.py) and proved equal to the models' guards, so an edited guard breaks a proof obligation at build time.",
-        level_note=LN,
+        level_note=LN + "Two theorems are _partial on the known finding X5 (C16TST: TST operations with the empty-string key).",
     ),
     "C17": dict(
         streams=[S("treetable", n_quick=750)],
@@ -203,7 +203,7 @@ PROPS = {
         streams=[S(c, focus="growth", n_quick=150, growth_count=True) for c in ["array", "array_sized", "pqueue", "deque", "hashtable", "stack", "queue"]],
         relevant=rel_c20, extra_lean=["CollectionsC/Proofs/Growth.lean"],
         level_text=T("size <= capacity and power-of-two capacities are part of each invariant; the number of reallocations during n appends is at most log2(size+n)+1 whenever a growth step at least doubles the capacity (default factor, deque, hash table); for the pointer array also a bound for every factor >= 1+1/k.") + " The run counts real buffer allocations per append through the ledger and compares them with the bound for the configured factor.",
-        level_note=LN + "General rational factors are measured, not proved.",
+        level_note=LN + "Factors below 2 that are not of the form covered by appends_realloc_geometric (>= 1+1/k, pointer array, sized array, pqueue) are measured by the run's allocation count, not proved; float rounding of the growth step enters the models as a parameter. The run also checks the capacity after every successful trim against the documented minimum.",
     ),
     "C19": dict(
         streams=[S("rbuf", n_quick=1000, n_thorough=20000)],
